@@ -37,6 +37,14 @@ def big_disc():
     return bytes(img)
 
 
+def small_disc(size):
+    """three files of `size` bytes each (the .inf sidecars, about 40 bytes, are then the largest files extract-files creates)"""
+    files = [images.E('F%d' % i, 2 + i, size, dir='$', locked=bool(i % 2)) for i in range(3)]
+    files.reverse()
+    img, model = disc.build_spec({'kind': 'acorn', 'tracks': 40, 'spt': 10, 'files': files, 'title': 'SMALL', 'tag': 'S'})
+    return bytes(img)
+
+
 def basic_prog():
     lines = [(10 * i, b'\xf1"LINE %d OF A FAIRLY LONG PROGRAM";' % i + b'\xe5' + R.encode_linenum(10)) for i in range(1, 260)]
     return R.frame('6502', lines)
@@ -149,6 +157,8 @@ def w_extract_limit(case):
     try:
         d = setup_dir()
         cmd = case['cmd']
+        if case.get('small') is not None:
+            dfsrun.write(d, 'big.ssd', small_disc(case['small']))
         argv = argv_of('dfs', cmd)
         ref = run.run_limited(argv, cwd=d)
         tree = dfsrun.read_tree(os.path.join(d, 'out'))
@@ -183,7 +193,7 @@ def w_extract_limit(case):
                 res['viol'].append((sig + ':no-diagnostic', 'N=%d exit %d' % (N, r.exit)))
             else:
                 bump(res, 'ok-reported')
-            res['nt'].append(('extract', tuple(cmd), N))
+            res['nt'].append(('extract', tuple(cmd), N, case.get('small')))
         if res['viol']:
             res['case'] = case
     except Exception:
@@ -397,6 +407,14 @@ def fam_extract(tier):
             yield {'w': 'extract', 'cmd': cmd, 'limits': lim[i:i + 100]}
 
 
+def fam_extract_small(tier):
+    """discs holding only small files (0..60 bytes): the first refused write lands in a .inf sidecar, not in a body"""
+    sizes = range(0, 61) if tier == 'thorough' else (0, 1, 15, 16, 17, 30, 36, 37, 40, 44, 45, 50)
+    for size in sizes:
+        for cmd in (['extract-files', 'out'], ['extract-unused', 'out']):
+            yield {'w': 'extract', 'cmd': cmd, 'small': size, 'limits': list(range(0, 70))}
+
+
 def fam_dev(tier):
     """/dev/full and closed pipes for every command; missing / non-directory destinations"""
     for tool, cmds in (('dfs', DFS_CMDS + [['extract-unused', 'out']]), ('basic', BASIC_CMDS)):
@@ -405,7 +423,8 @@ def fam_dev(tier):
     yield {'w': 'dest'}
 
 
-FAMILIES = [('D-devfull-closedpipe-baddest', fam_dev), ('X-exact-buffer-multiple-listings', fam_exact), ('O-stdout-refuses-at-N', fam_stdout), ('E-extracted-file-refuses-at-N', fam_extract)]
+FAMILIES = [('D-devfull-closedpipe-baddest', fam_dev), ('X-exact-buffer-multiple-listings', fam_exact), ('O-stdout-refuses-at-N', fam_stdout), ('E-extracted-file-refuses-at-N', fam_extract),
+            ('S-small-files-sidecar-refuses-at-N', fam_extract_small)]
 
 
 def main(tier, seed):
